@@ -101,6 +101,12 @@ def descs(tier, rnd):
                 yield dict(seq=seq, static=[([seq[0]], [(m, 1)])])
                 yield dict(seq=seq, static=[(['N-Term'], [(m, 1)])])
                 yield dict(seq=seq, static=[(['C-Term', seq[-1]], [(m, 1)])])
+    # several global rules at once, a later rule naming a target of an earlier multi-target rule again
+    for seq in ('PEPSIDESK', 'SAD', 'KMCWUO'):
+        a_, b_ = seq[0], seq[-1]
+        yield dict(seq=seq, static=[([a_, b_], [('10.5', 1)]), ([b_], [('3.25', 1)])])
+        yield dict(seq=seq, static=[([a_, b_, 'N-Term'], [('Oxidation', 1)]), ([a_], [('Formula:C2H3N1O-1', 1)]), (['N-Term'], [('-17.5', 1)])])
+        yield dict(seq=seq, static=[([b_], [('1.5', 1)]), ([a_, b_], [('Phospho', 1)])])
     for _ in range(300 if tier == 'quick' else 6000):
         n = rnd.randint(1, 30)
         seq = ''.join(rnd.choice(LETTERS) for _ in range(n))
